@@ -1,8 +1,31 @@
 (* Properties/C16.v — the ontology is a function of the facts, not of their order (C16) *)
-From HpoV Require Import Model.Base Model.Dump Run.World Run.Ser Run.C16 Proofs.C15P.
+From Coq Require Import Relations.
+From HpoV Require Import Gen.Consts Model.Base Model.Group Model.Onto Model.Dump Run.World Run.Ser Run.C16 Proofs.C15P Proofs.ClosureP Proofs.LinkP.
 
 Theorem C16_all_orders_same_observation : forall i o, spec_C16 i o = true ->
   forall a b, In a o -> In b o -> ser_res a = ser_res b.
 Proof. exact spec_C16_sound. Qed.
 
+(* ---- about the Gallina transcription: the derived data are functions of the fact SETS ---- *)
+
+(* ancestor sets depend only on the parent RELATION: two arenas with the same links (whatever the
+   order in which terms and links were supplied, whatever the fuel) get the same ancestor sets *)
+Theorem C16_model_closure_order_independent : forall fuel1 fuel2 a b a' b',
+  wf_ar a -> wf_ar b ->
+  (forall t, In t (ar_terms a) -> t_allp t = []) -> (forall t, In t (ar_terms b) -> t_allp t = []) ->
+  (forall c p, parent_rel a c p <-> parent_rel b c p) ->
+  connect_all fuel1 a = Ok a' -> connect_all fuel2 b = Ok b' ->
+  forall ta tb, In ta (ar_terms a') -> In tb (ar_terms b') -> t_id ta = t_id tb ->
+  forall x, In x (t_allp ta) <-> In x (t_allp tb).
+Proof. exact closure_depends_on_links_only. Qed.
+
+(* inherited annotations depend only on the SET of (annotation, term) facts: the characterisation
+   of link_all mentions the fact list through membership only *)
+Theorem C16_model_annotations_order_independent : forall k fuel facts a a', good k a -> (forall g, upclosed_except k g [] a) ->
+  link_all k fuel facts a = Ok a' ->
+  forall id x, has k a' id x <-> has k a id x \/ exists d, In (x, d) facts /\ In id (ar_keys a) /\ reach a d id.
+Proof. exact link_all_membership. Qed.
+
 Print Assumptions C16_all_orders_same_observation.
+Print Assumptions C16_model_closure_order_independent.
+Print Assumptions C16_model_annotations_order_independent.
